@@ -1037,7 +1037,7 @@ pub fn names_case(inp: &Input, cfg: &Cfg, gc_runs: u32) -> Value {
         lm.push(json!({"known": known, "pairs": pairs}));
     }
     json!({
-        "id": format!("{}~gc{}", inp.id, gc_runs), "source": inp.source, "outcome": rt.outcome,
+        "id": format!("{}~gc{}{}", inp.id, gc_runs, if cfg.synth { "~synth" } else { "" }), "source": inp.source, "outcome": rt.outcome, "synth": cfg.synth,
         "in_names": names_json(&inm), "out_names": names_json(&outm), "out_names_ok": outm.name_section_ok || outm.names.is_empty(),
         "sigma": rt.sigma, "lm": lm, "nparams": inm.funcs.iter().map(|f| f.nparams).collect::<Vec<_>>(),
     })
